@@ -590,3 +590,10 @@ package keeper
 //@ ensures [C19] every_context_paused_with_no_batch_in_flight: forall k Key :: {raw[k]} raw[k] == ((is_KCtx(k) && old(raw)[k] != bnil)
 //@      ? enc_RequestContext(dec_RequestContext(old(raw)[k])[State := PAUSED][BatchState := BATCHCOMPLETED][BatchRequestCount := 0][BatchResponseCount := 0]) : old(raw)[k])
 //@ ensures err == NoErr
+
+// ParsePricing: the structural facts every stored Pricing relies on are proved from the body; that the result is a
+// deterministic function of the text (given the token registry) is an assumed clause.
+//@ func (Keeper).ParsePricing
+//@ props C20 C15 C14 C07
+//@ ensures [C20,C15] exactly_one_price_coin_of_nonnegative_amount: err == NoErr ==> onePriceCoin(p)
+//@ assumes deterministic_function_of_the_text: err == parsePricingErr(pricing) && (err == NoErr ==> p == parsePricing(pricing))
